@@ -262,7 +262,7 @@ theorem fx_stepStart (c : Cfg) (s : St) (t : Nat) (x : Task) (hx : s.tasks t = s
             have h5 : StepFx (plainSet s3 xp v) { (plainSet s3 xp v) with syncing := s1.syncing } t xp 1 :=
               StepFx.of_eq rfl rfl rfl rfl
             exact h03.trans (h4.trans (h5.trans (fx_end _ t xp 1 false)))
-        · -- (patch) await before the scope
+        · -- await before the scope (since 08165dc)
           have ha := fr_awaitFut s1 t (t, 0) .awaitOut
           generalize awaitFut s1 t (t, 0) .awaitOut = res at ha
           obtain ⟨o, s3⟩ := res
